@@ -401,6 +401,9 @@ def validate_sshsig(data: BytesOrFilePath, sig: BytesOrFilePath,
     except PacketDecodeError:
         return False
 
+    if hash_name not in _hashes or not namespace:
+        return False
+
     data_to_verify = _signed_data(data, is_hashed, hash_name, namespace)
 
     if not key.verify(data_to_verify, sig):
